@@ -99,3 +99,15 @@ prop(
     design_ref="§8 C13",
     assumptions=["error-message text is compared only when it is valid UTF-8 (from_utf8_lossy of std is not modelled)"],
 )
+
+prop(
+    "C05",
+    module="Aquatic.Props.C05",
+    technique="Lean 4 proof for an arbitrary keyed hash (window arithmetic, acceptance implies correct MAC) + differential check of the real ConnectionValidator at window boundaries, other addresses, all single-bit and sampled double-bit alterations, forged and previous-run ids",
+    runs=[dict(harness="validator", driver="validator", quick=dict(cases=60), thorough=dict(cases=6000))],
+    nontrivial=["t=expiry-1", "t=expiry", "60s-future", "61s-future", "age=0", "foreign-or-altered-id"],
+    level_text="Theorems over every issue time, check time, age and address, for an arbitrary MAC function: an issued id is accepted from its address iff now < t + age and t <= now + 60; acceptance of any id from any address implies the presented tag equals the MAC of (embedded time, that address) - the precise form of 'rejected up to the 2^-32 guessing chance'; the u64 sums cannot overflow. Tie: the real ConnectionValidator (clock set through hook H4) on boundary triples, all 64 single-bit alterations, other addresses of both families, forged ids and ids of another validator instance.",
+    level_note="Trusted: Lean kernel; BLAKE3 keyed hash idealised as an arbitrary function (the driver's oracle knows the MAC only of issued (time, address) pairs: a 2^-32 chance of a spurious alarm per forged id); constant_time_eq; native-endian split of the id modelled as two u32 halves; the socket workers' clock refresh (every 256 polls / 5 s pulse) is not modelled.",
+    design_ref="§8 C05",
+    assumptions=["mac is an arbitrary function of (issue time, canonical source ip)", "the validator clock is set by the hook; its refresh by the socket workers is outside the model"],
+)
